@@ -316,6 +316,7 @@ def run_proto_stream(P, tier, seed, budget, workdir, binaries, drv, flag):
 class C03(Proto):
     id = "C03"
     lean_module = "Props.C03"
+    streams = [("C03", "knxdrv", 0.95), ("C03rt", None, 0.05)]
     rule = ("scripts for the real Tunnel on an in-memory socket under virtual time: one script of 600 consecutive Sends "
             "(the 255->0 wrap twice) and random scripts of 3..27 Sends, each Send followed by one of 12 gateway behaviours "
             "(prompt ack, ack after k resends, wrong sequence numbers +1/-1/+128/+2 first, foreign channel first, error "
@@ -331,7 +332,9 @@ class C03(Proto):
                   "ok iff status 0); in every reachable state the pending Send carries the current counter, so a completing ack "
                   "carries its channel and number; the counter moves +1 per completed exchange; TCP sends once and returns. "
                   "Tie: the real Tunnel driven along generated scripts under virtual time, traces equal to the model's.")
-    partial = "mutual exclusion of real goroutines rests on sync.Mutex (trusted); concurrent senders are not driven under virtual time"
+    partial = ("mutual exclusion of real goroutines rests on sync.Mutex (trusted); concurrent senders cannot be driven under "
+               "virtual time - they are run in real time (stream C03rt: 1..8 goroutines on one tunnel against a rule-following "
+               "gateway; monitors: no sequence number carries two telegrams, every successful Send is on the bus once)")
 
 
 class C04(Proto):
@@ -353,7 +356,7 @@ class C04(Proto):
 class C05(Proto):
     id = "C05"
     lean_module = "Props.C05"
-    streams = [("C05", None, 0.5), ("C03", "knxdrv", 0.25), ("C04", "knxdrv", 0.25)]
+    streams = [("C05", None, 0.5), ("C03", "knxdrv", 0.25), ("C04", "knxdrv", 0.25), ("C03rt", None, 0.05)]
     budgets = {"quick": 300, "thorough": 3000}
     rule = ("composed-system walks under virtual time: the real client against an in-harness rule-following gateway over a "
             "network that loses (0..40 %), duplicates (0..30 %, up to 3 copies), delays (up to 2 resend intervals + 5 ms, so "
